@@ -37,7 +37,7 @@ func (v *Verifier) verifyFunc(fn *ssa.Function, c *Contract) (err error) {
 	fr := &Frame{fn: fn, block: fn.Blocks[0], visits: map[int]int{}, cuts: map[int]*cutInfo{}, label: key}
 	st.frames = []*Frame{fr}
 	for _, p := range fn.Params {
-		t := Var("p$"+p.Name(), sortOf(p.Type()))
+		t := Var(fmt.Sprintf("p$%s@%s", p.Name(), sanitize(key)), sortOf(p.Type()))
 		st.env[p] = t
 		for _, inv := range typeInv(t, p.Type(), 0) {
 			st.assume(inv)
